@@ -1,7 +1,8 @@
 (* Extraction of the executable models and specifications for the correspondence check.
    Only standard-library extraction directives are used (listed in DESIGN.md section 8). *)
 From Coq Require Import ZArith Extraction ExtrOcamlBasic ExtrOcamlZBigInt ExtrOcamlNatBigInt ExtrOcamlString.
-From BU Require Import Lib.Bytes Model.Varint Spec.CompactSize Model.Script Spec.Opcodes Spec.ScriptSpec Model.Seq Spec.BIP68 Crypto.Sha256 Model.Tx Spec.Consensus Model.Sighash Spec.SighashSpec Model.Block.
+From BU Require Import Gen.Tables Lib.Bytes Model.Varint Spec.CompactSize Model.Script Spec.Opcodes Spec.ScriptSpec Model.Seq Spec.BIP68 Crypto.Sha256 Model.Tx Spec.Consensus Model.Sighash Spec.SighashSpec Model.Block Model.Der Spec.BIP66 Model.Base58 Model.Ripemd160 Spec.Ripemd160Spec
+  Model.Bech32 Model.EC Model.Schnorr Model.Taproot Model.Msg Spec.BIP341.
 Extraction Language OCaml.
 (* The only directives of our own (trusted base, DESIGN.md section 8): bitwise operations on Z are
    mapped to zarith's, as ExtrOcamlZBigInt already does for shifts. *)
@@ -15,6 +16,14 @@ Extraction "model.ml"
   mk_sequence for_input_sequence for_script locktime_for_transaction bip112_ok bip68_units enforces_locktime signals_rbf le_bytes le_val
   sha256 sha256d tx_serialize tx_to_bytes tx_from_raw get_txid get_wtxid get_size get_vsize tx_copy
   legacy_preimage segwit_preimage taproot_digest str_bytes spec_legacy_preimage bip143_preimage taproot_sighash
+  normalise grind sign_input strict_der is_valid_signature_encoding normal_s Spec.BIP66.secp_n
+  b58encode b58decode ripemd160 ripemd160_spec
+  bech32_polymod bech32_decode convertbits segwit_encode segwit_decode is_address_bech32 create_checksum
+  point_add point_mul lift_x modpow secp_p secp_G params_field params_order schnorr_n schnorr_p
+  schnorr_sign schnorr_verify full_pubkey_gen tagged_hash
+  merkle_root generate_merkle_path calculate_tweak tweak_taproot_pubkey tweak_taproot_privkey to_taproot control_block sign_taproot
+  verify_script_path
+  message_digest add_magic_prefix verify_message sign_message recover_pubkey recover ecdsa_verify
   header_from_raw serialize_header get_block_hash get_target get_transaction_length block_from_raw
   spec_serialize spec_serialize_stripped spec_txid spec_wtxid spec_vsize
   consensus_opcodes spec_assoc spec_assemble spec_disassemble spec_scriptnum scriptnum_decode_minimal.
